@@ -31,7 +31,7 @@ GATHER_CLASSES = ["ASTNode", *M.CLASS_NAMES]
 
 
 def st_case(ctx: Ctx):
-    g = T.TreeGen(leaves=ctx.pick(10, 16), refs=True, noinit=True)
+    g = T.TreeGen(leaves=ctx.pick(10, 16), refs=True, noinit=True, stale_pairs=True)
     masks = st.lists(st.tuples(st.integers(0, 2**40), st.integers(0, 2**40)).map(list), min_size=12, max_size=12)
     # (class mask 0: an explicitly empty tuple of classes selects nothing)
     gmask = st.lists(st.tuples(st.integers(0, 2 ** len(GATHER_CLASSES) - 1), st.booleans(),
